@@ -26,6 +26,9 @@ pub trait Val: Copy + Send + Sync + 'static {
     fn generate(kind: &str, i: usize, rng: &mut Rng) -> Self;
 }
 fn gen_int(kind: &str, i: usize, rng: &mut Rng) -> i64 {
+    if let Some(v) = kind.strip_prefix("lit:") {
+        return v.parse().unwrap_or(0);
+    }
     match kind {
         "bits" => (rng.next() & 1) as i64,
         "bits_runs" => {
@@ -633,7 +636,9 @@ pub fn do_env(rig: &mut Rig, act: &Value, log: &mut Vec<Value>) {
 /// Returns false if the budget ran out.
 pub fn settle(rig: &mut Rig, log: &mut Vec<Value>, close_inputs: bool) -> bool {
     let mut idle = 0;
-    for _ in 0..200_000 {
+    // A block that keeps moving data forever without new input is cut off.
+    let budget = 2000 + 20 * rig.ins.iter().map(|p| p.total()).sum::<usize>();
+    for _ in 0..budget {
         let mut moved = false;
         for p in rig.ins.iter_mut() {
             let n = p.feed(usize::MAX >> 1);
